@@ -517,6 +517,7 @@ class VLE(Equilibrium, phases='lg'):
         phase_data = self._phase_data
         
         # Set Pressure in equilibrium
+        self._thermal_condition.T = self._T = T
         self._thermal_condition.P = P = self._chemical.Psat(T)
         
         # Check if super heated vapor
@@ -585,6 +586,7 @@ class VLE(Equilibrium, phases='lg'):
         phase_data = self._phase_data
         
         # Set Pressure in equilibrium
+        self._thermal_condition.T = self._T = T
         self._thermal_condition.P = P = self._chemical.Psat(T)
         
         # Check if super heated vapor
